@@ -299,3 +299,37 @@ fn group_aligned_items<T: AlignedItem>(
     }
     ("", index)
 }
+
+#[cfg(feature = "verif-hooks")]
+pub(crate) mod verif_local {
+    use super::*;
+
+    /// `group_aligned_items` applied the way `rewrite_with_alignment` recurses: for every
+    /// group the index (into `fields`) of its last field and whether its separator is `"\n"`.
+    pub(crate) fn groups<T: AlignedItem>(
+        context: &RewriteContext<'_>,
+        fields: &[T],
+    ) -> Vec<(usize, bool)> {
+        let mut result = vec![];
+        let mut start = 0;
+        while start < fields.len() {
+            let (spaces, index) = if context.config.struct_field_align_threshold() > 0 {
+                group_aligned_items(context, &fields[start..])
+            } else {
+                ("", fields.len() - start - 1)
+            };
+            result.push((start + index, spaces == "\n"));
+            start += index + 1;
+        }
+        result
+    }
+
+    /// `struct_field_prefix_max_min_width(context, fields, shape)`.
+    pub(crate) fn max_min<T: AlignedItem>(
+        context: &RewriteContext<'_>,
+        fields: &[T],
+        shape: Shape,
+    ) -> (usize, usize) {
+        struct_field_prefix_max_min_width(context, fields, shape)
+    }
+}
